@@ -18,7 +18,8 @@ use bitcoin::hashes::Hash as _;
 use hxlib::*;
 use std::cell::RefCell;
 
-fn spec(regtest: bool) -> WorldSpec {
+fn spec(kind: u8) -> WorldSpec {
+  let regtest = kind == 1;
   let mut outputs = vec![
     OutSpec { value: 20_000, ..Default::default() },
     OutSpec { value: 10_000, inscriptions: 1, ..Default::default() },
@@ -38,19 +39,20 @@ fn spec(regtest: bool) -> WorldSpec {
     foreign_inscribed: false,
     cardinals: 1,
     no_rune_index: false,
+    no_inscription_index: kind == 2,
   }
 }
 
 thread_local! {
-  static WORLDS: RefCell<[Option<World>; 2]> = const { RefCell::new([None, None]) };
+  static WORLDS: RefCell<[Option<World>; 3]> = const { RefCell::new([None, None, None]) };
 }
 
-fn with_world<T>(regtest: bool, f: impl FnOnce(&World) -> T) -> T {
+fn with_world<T>(kind: u8, f: impl FnOnce(&World) -> T) -> T {
   WORLDS.with(|w| {
     let mut w = w.borrow_mut();
-    let slot = &mut w[usize::from(regtest)];
+    let slot = &mut w[usize::from(kind)];
     if slot.is_none() {
-      *slot = Some(World::new(spec(regtest)));
+      *slot = Some(World::new(spec(kind)));
     }
     f(slot.as_ref().unwrap())
   })
@@ -131,6 +133,8 @@ struct Case {
   dry: bool,
   amount: u64,
   want: u64,
+  /// world kind: 0 mainnet, 1 regtest with rune index, 2 mainnet without inscription index
+  kind: u8,
   regtest: bool,
   pay: u64,
   ins: Vec<(bool, usize, Sig)>, // (wallet?, index, pre)
@@ -167,11 +171,15 @@ fn encode(c: &Case) -> Line {
       } else {
         l.push(0u8);
       }
-      l.push(1u8);
-      let t = insc_table(*idx);
-      l.push(t.len());
-      for x in t {
-        l.push(x);
+      if c.kind == 2 {
+        l.push(0u8);
+      } else {
+        l.push(1u8);
+        let t = insc_table(*idx);
+        l.push(t.len());
+        for x in t {
+          l.push(x);
+        }
       }
     } else {
       l.push(0u8);
@@ -187,7 +195,7 @@ fn encode(c: &Case) -> Line {
       push_sig(&mut l, Sig::Witness(1));
     }
   }
-  l.push(c.regtest);
+  l.push(c.kind);
   l.push(c.pay);
   for (wallet, idx, _) in &c.ins {
     l.push(*wallet);
@@ -234,7 +242,8 @@ fn decode(line: &Line) -> Case {
   for _ in 0..m {
     read_sig(&mut c);
   }
-  let regtest = c.bool();
+  let kind = c.u8();
+  let regtest = kind == 1;
   let pay = c.u64();
   let mut ins = Vec::new();
   for pre in pres {
@@ -242,7 +251,7 @@ fn decode(line: &Line) -> Case {
     let idx = c.usize();
     ins.push((wallet, idx, pre));
   }
-  Case { dry, amount, want, regtest, pay, ins }
+  Case { dry, amount, want, kind, regtest, pay, ins }
 }
 
 const PRE_KINDS: [Sig; 7] = [
@@ -259,7 +268,8 @@ pub fn gen(rng: &mut Rng, tier: &str) -> Vec<Line> {
   let n = if tier == "thorough" { 1500 } else { 160 };
   let mut v = Vec::new();
   for i in 0..n {
-    let regtest = i % 3 == 2;
+    let kind: u8 = if i % 3 == 2 { 1 } else if i % 16 == 0 { 2 } else { 0 };
+    let regtest = kind == 1;
     // a well-formed offer for wallet output 1 or 3 ...
     let seller = *rng.pick(&[1usize, 3, 1, 3, 4]);
     let seller = if seller == 4 && !regtest { 1 } else { seller };
@@ -272,6 +282,7 @@ pub fn gen(rng: &mut Rng, tier: &str) -> Vec<Line> {
       dry: rng.chance(1, 2),
       amount: if regtest { 0 } else { delta },
       want: insc_table(seller)[0],
+      kind,
       regtest,
       pay: value_of(seller) + delta,
       ins,
@@ -380,7 +391,7 @@ pub fn run(line: &Line) -> Outcome {
         cat: "harness/inconsistent".into(),
       };
     }
-    with_world(c.regtest, |w| {
+    with_world(c.kind, |w| {
       let table: Vec<ord::InscriptionId> = w.inscriptions.iter().flatten().cloned().collect();
       let want_id = if c.want >= 1 && (c.want as usize) <= table.len() {
         table[c.want as usize - 1]
@@ -426,6 +437,9 @@ pub fn run(line: &Line) -> Outcome {
       // ---- S: the property's clauses, evaluated on what the harness built
       let owned: Vec<usize> = c.ins.iter().enumerate().filter(|(_, i)| i.0).map(|(k, _)| k).collect();
       let clauses_pre = || -> Result<(), String> {
+        if c.kind == 2 {
+          return Err("the server has no inscription index, the named inscription cannot be checked".into());
+        }
         if owned.len() != 1 {
           return Err(format!("{} wallet inputs", owned.len()));
         }
